@@ -151,3 +151,51 @@ func packID(p media.Pack) string {
 	}
 	return fmt.Sprintf("%T", p)
 }
+
+// aacPayload builds an RFC 3640 AAC-hbr payload carrying the given AUs.
+func aacPayload(aus ...[]byte) []byte {
+	b := make([]byte, 2+2*len(aus))
+	binary.BigEndian.PutUint16(b, uint16(16*len(aus)))
+	for i, au := range aus {
+		binary.BigEndian.PutUint16(b[2+2*i:], uint16(len(au))<<3)
+	}
+	for _, au := range aus {
+		b = append(b, au...)
+	}
+	return b
+}
+
+// rtcpSR builds a sender report.
+func rtcpSR(ntpSec uint32, rtpTime uint32) []byte {
+	b := make([]byte, 28)
+	b[0] = 0x80
+	b[1] = 200
+	binary.BigEndian.PutUint16(b[2:], 6)
+	binary.BigEndian.PutUint32(b[4:], 0x11223344)
+	binary.BigEndian.PutUint32(b[8:], ntpSec)
+	binary.BigEndian.PutUint32(b[16:], rtpTime)
+	return b
+}
+
+func blob(id, size int) []byte {
+	b := make([]byte, size)
+	for i := range b {
+		b[i] = byte(id*131 + i*7)
+	}
+	if size >= 4 {
+		binary.BigEndian.PutUint32(b, uint32(id))
+	}
+	return b
+}
+
+// H.265 video only (flv muxer exists, no ts muxer).
+const sdpH265 = `v=0
+o=- 0 0 IN IP4 127.0.0.1
+s=No Name
+c=IN IP4 127.0.0.1
+t=0 0
+m=video 0 RTP/AVP 96
+a=rtpmap:96 H265/90000
+a=fmtp:96 sprop-vps=QAEMAf//BAgAAAMAnQgAAAMAAF26AkA=; sprop-sps=QgEBBAgAAAMAnQgAAAMAAF2wAoCALRZbqSTK4BAAAAMAEAAAAwHggA==; sprop-pps=RAHBcrRiQA==
+a=control:streamid=0
+`
